@@ -40,12 +40,15 @@ FAMILIES["C02"] = dict(
 )
 
 FAMILIES["C03"] = dict(
-    g=[G("MC_C03", "MC_C03_quick.cfg", "MC_C03_thorough.cfg")],
-    v=[dict(profile="ops", n={"quick": 4000, "thorough": 80000})],
+    g=[G("MC_C03", "MC_C03_quick.cfg", "MC_C03_thorough.cfg"), G("MC_C03N", "MC_C03N_quick.cfg", "MC_C03N_thorough.cfg")],
+    v=[dict(profile="ops", n={"quick": 4000, "thorough": 80000}), dict(profile="numops", n={"quick": 3000, "thorough": 60000})],
+    trace_by_ev={"Num": "TraceNum"},
     level_text=("The operator rules O1-O9 are a total TLA+ table (JEval!NumOpResult/CmpResult/Truthy/ConcatPart/Range/Cond) over exact rationals. TLC enumerates all 16 binary operators x 24 x 24 operand "
                 "kinds/values (numbers incl. 0, negatives, fractions; strings incl. empty, numeric-looking, non-ASCII; booleans; null; arrays; objects; functions; missing), each operand as a literal or an input member, "
-                "unary minus, the lazy conditional with a failing unchosen branch, range limits, exact dyadic arithmetic, and (thorough) the nested depth-2 fragment; every cell is replayed and validated."),
-    level_note=_SEM_NOTE + " IEEE-754 rounding of inexact intermediate results, subnormals, the sign of zero and magnitudes beyond 1e9 are outside the exact-rational model (DESIGN.md section 7).",
+                "unary minus, the lazy conditional with a failing unchosen branch, range limits, exact dyadic arithmetic, and (thorough) the nested depth-2 fragment; every cell is replayed and validated. "
+                "Magnitudes beyond the rational model (5e-324 .. 1.8e308, powers of two around 2^53 and 2^63, neighbouring doubles) are covered by a second enumeration (MC_C03N) over decimal digit sequences: + - * / % and the six comparisons on input members, "
+                "validated by TraceNum against exact decimal arithmetic on the operands' exact binary expansions (the remainder exactly, the others to half a unit in the last place, overflow and division by zero as errors)."),
+    level_note=_SEM_NOTE + " In the rational part IEEE-754 rounding of inexact intermediate results and the sign of zero are outside the model; in the decimal part subnormal operands/results and results at the very edge of the double range are abstained from (DESIGN.md section 7).",
 )
 
 _TOTAL_NOTE = ("Trusted: the isolation worker's wall-clock limit (3 s per case, ~1000x the slowest legitimate case) as the observation of non-termination; "
